@@ -144,6 +144,7 @@ func (v *Verifier) expandConstructs() []string {
 				// can reach (the receiver included), so the postcondition speaks about the last item only
 				addMod(c, "apiEffects")
 				addClause(c, "ensures", "C14,C01", "item", "len(*s) >= 1 && "+item("(*s)[len(*s) - 1]"))
+				addClause(c, "ensures", "C14", "arg", "len(*s) >= 1 && cbarg(f, calls[f], 0) == C_pGroup_v((*s)[len(*s) - 1])")
 			} else {
 				addClause(c, "ensures", "C14,C20,C01", "appended", "len(*s) == old(len(*s)) + 1 && (forall j int :: { (*s)[j] } (0 <= j && j < old(len(*s))) ==> (*s)[j] == old((*s)[j]))")
 				addClause(c, "ensures", "C14,C01", "item", item("(*s)[old(len(*s))]"))
